@@ -25,6 +25,38 @@ _INSTRUMENTED = False
 DURATIONS = (0.05, 0.0, 0.5, 3.0)   # default first: 'too fast' => batch size grows
 
 
+class OrderedSet:
+    """Stand-in for the builtin set inside joblib.parallel (rebound as module attribute `set`): iteration
+    order of a real set of job objects depends on their addresses, which the explorer cannot own; here the
+    order is insertion order, or - an environment decision - the reverse."""
+
+    def __init__(self, it=()):
+        self._d = dict.fromkeys(it)
+
+    def add(self, x):
+        self._d[x] = None
+
+    def remove(self, x):
+        del self._d[x]
+
+    def discard(self, x):
+        self._d.pop(x, None)
+
+    def __contains__(self, x):
+        return x in self._d
+
+    def __len__(self):
+        return len(self._d)
+
+    def __iter__(self):
+        items = list(self._d)
+        s = pysched._CUR
+        if len(items) > 1 and s is not None and pysched.current_actor() is not None and s.abort is None:
+            if s.choose(2, "iteration order of a set of jobs", cost=1) == 1:
+                items.reverse()
+        return iter(items)
+
+
 class Boom(Exception):
     """Raised by failing tasks / failing input iterators of the harness."""
 
@@ -408,6 +440,7 @@ def run_scenario(cfg, choices=(), expect=None, horizon=None, record_states=True)
     me_holder[0] = comp
     old_time = JP.time
     JP.time = clock
+    JP.set = OrderedSet
     gc_was = gc.isenabled()
     gc.disable()
     try:
@@ -416,6 +449,8 @@ def run_scenario(cfg, choices=(), expect=None, horizon=None, record_states=True)
             s.run()
     finally:
         JP.time = old_time
+        if hasattr(JP, "set"):
+            del JP.set
         if gc_was:
             gc.enable()
     obs.verdict = s.abort or "ok"
